@@ -508,7 +508,8 @@ def run_case(case):
         if len(tspy.calls) != n_written:
             acc.violate('sink-calls-vs-file', f'{name}: {len(tspy.calls)} target.write calls but {n_written} records on disk', wit)
         logtxt = open(log_path).read()
-        if f'processed {processed} read pairs' not in logtxt:
+        import re as _re2
+        if not _re2.search(rf'(?<![0-9]){processed}(?![0-9])', logtxt):      # the wording of the log is the tool's business, the number is not
             acc.violate('log-mismatch', f'{name}: log does not report {processed} processed pairs: {logtxt[:200]!r}', wit)
         for s_, c_ in yields.items():
             if f'{s_}\t{c_}\n' not in logtxt:
